@@ -12,7 +12,10 @@ for id in $IDS; do
   cp -f evidence/$id.json /tmp/ev_$$_$id.json 2>/dev/null
   GEPARD_REPO="$WT" VERIF_SEED=$SEED timeout 1500 ./check $id > /tmp/st_$$_$id.out 2>&1
   # verdict lines, each VIOLATION followed by its explanation line (tracebacks are left out)
-  awk '/^(OK|FAIL|VIOLATION|ERROR|TIMEOUT)/ {print; v = ($0 ~ /^VIOLATION/); next} v && /^  / {print; v = 0; next} {v = 0}' /tmp/st_$$_$id.out | cut -c1-260 | head -14 | sed "s/^/[$id] /"
+  awk '/^(OK|FAIL|VIOLATION|ERROR|TIMEOUT)/ {print; v = ($0 ~ /^VIOLATION/); next} v && /^  / {print; v = 0; next} {v = 0}' /tmp/st_$$_$id.out | cut -c1-260 > /tmp/st_$$_$id.ver
+  # the first verdict lines and always the closing OK / FAIL / ERROR line
+  { head -30 /tmp/st_$$_$id.ver; [ "$(wc -l < /tmp/st_$$_$id.ver)" -gt 30 ] && grep -E "^(OK|FAIL|ERROR|TIMEOUT)" /tmp/st_$$_$id.ver | tail -1; } | sed "s/^/[$id] /"
+  rm -f /tmp/st_$$_$id.ver
   rm -f /tmp/st_$$_$id.out
   # evidence committed under /verif must come from runs against /repo itself: put the previous file back
   mv -f /tmp/ev_$$_$id.json evidence/$id.json 2>/dev/null
